@@ -33,6 +33,9 @@ class PyIdx(tuple):
     def __new__(cls, space, spin, letter, num, uid=0):
         return tuple.__new__(cls, (space, spin, letter, num, uid))
 
+    def __getnewargs__(self):
+        return tuple(self)
+
     space = property(lambda s: s[0])
     spin = property(lambda s: s[1])
     letter = property(lambda s: s[2])
